@@ -261,7 +261,7 @@ def load_known(pid):
 
 AGGREGATE_KINDS = {"soak", "overlap", "crossfire", "shared", "owners", "mixup", "bursts", "uptime", "crowd", "race",
                    "race-reopen", "race-verdicts", "discover-round", "discover-overlap", "lcconc", "xroute", "loop",
-                   "prodloop", "e2e", "leak", "lifecycle", "recover", "methods"}
+                   "prodloop", "e2e", "leak", "lifecycle", "recover", "methods", "xlate", "prioseq", "http"}
 
 
 def main():
@@ -424,9 +424,16 @@ def main():
     ridx = 0
     for sig, vs in sorted(by_sig.items()):
         if sig in known_keys:
-            seen_known.add(sig)
-            out_lines.append("KNOWN-FINDING: property=%s %s (key=%s, %d case(s) this run)" % (pid, known_keys[sig], sig, len(vs)))
-            continue
+            # a listed finding is the behaviour the model's pinned variant reproduces (model and implementation agree on the
+            # case, the property's predicate fails on both); a case with the same signature on which the implementation
+            # does something ELSE than the pinned model is a different violation of the same property and is reported
+            kn = [v for v in vs if v.get("agree", True)]
+            vs = [v for v in vs if not v.get("agree", True)]
+            if kn:
+                seen_known.add(sig)
+                out_lines.append("KNOWN-FINDING: property=%s %s (key=%s, %d case(s) this run)" % (pid, known_keys[sig], sig, len(kn)))
+            if not vs:
+                continue
         violations += 1
         v = min(vs, key=lambda x: len(json.dumps(cases.get(x.get("case"), {}))))
         rp = os.path.join(replays, "%s-%s-%d.json" % (pid, tier, ridx))
